@@ -161,6 +161,7 @@ def gen_case(rng, tier, est=None, seeded=None):
     case["chunks"] = chunks
     case["ops"] = ops
     # an "integer random_state" may be a Python int or any NumPy integer scalar
+    case["ydtype"] = rng.choice(["int64", "int64", "int32", "uint8", "uint16", "int8", "uint64"])
     case["cfg"]["rs_type"] = rng.choice(["int", "int", "int64", "int32", "uint32", "uint64"])
     return case
 
@@ -209,7 +210,7 @@ def _present(case, o):
             y = [y[i] for i in perm]
         if sigma is not None:
             y = [sigma[v] for v in y]
-        out["y"] = np.array(y)
+        out["y"] = np.array(y, dtype=getattr(np, case.get("ydtype", "int64")))
     return out
 
 
